@@ -77,7 +77,7 @@ def gen_pipeline_case(rng, i, c03_bias=False):
     # +-1 and every vote a tie), now and then tiny
     shared = [g for g in mp.ref_genes if g in mp.query_genes]
     for p in mp.parents():
-        if rng.random() < 0.85:
+        if rng.random() < 0.95:
             k = rng.randint(min(5, len(shared)), len(shared))
         else:
             k = rng.randint(1, 3)
@@ -87,7 +87,7 @@ def gen_pipeline_case(rng, i, c03_bias=False):
     leaves = mp.leaves
     label = [normalization, 'depth%d' % len(h)]
     # aimed rows
-    if len(leaves) > 2 and rng.random() < 0.3:
+    if len(leaves) > 2 and rng.random() < 0.15:
         a, b = rng.sample(leaves, 2)
         mp.leaf_mean[b] = mp.leaf_mean[a].copy()
         mp.leaf_sum[b] = mp.leaf_mean[b] * mp.leaf_n[b]
@@ -114,12 +114,12 @@ def gen_pipeline_case(rng, i, c03_bias=False):
         factor = 1.0
     elif u < 0.35:
         factor = 0.5
-    elif u < 0.45:
+    elif u < 0.38:
         factor = 1.0 / n_min
     elif u < 0.55:
-        factor = (rng.randint(0, n_min - 1) + 0.5) / n_min
+        factor = (rng.randint(min(2, n_min - 1), n_min - 1) + 0.5) / n_min
     else:
-        factor = rng.uniform(0.1, 1.0)
+        factor = rng.uniform(0.3, 1.0)
     opts = {
         'bootstrap_factor': factor,
         'bootstrap_iteration': rng.choice([1, 1, 2, 3, 5, 8, 12])
@@ -370,6 +370,8 @@ def analyse_run(ctx, sig, case, res, inputs, opts, do_votes=True,
                 if ambiguous:
                     n_amb += 1
                     continue
+                ctx.count('pipeline:vote-getters-%d' % min(
+                    3, sum(1 for v in dv.values() if v > 0)))
                 probs = eu.check_choice(
                     dv, dc, iters, n_runners, rec['assignment'],
                     rec['bootstrapping_probability'],
